@@ -60,6 +60,11 @@ pub fn enter_process_base() {
     std::env::set_current_dir(&b).expect("chdir");
 }
 
+pub fn remove_sandbox_of(pid: u32) {
+    let base = if Path::new("/dev/shm").is_dir() { PathBuf::from("/dev/shm") } else { std::env::temp_dir() };
+    let _ = std::fs::remove_dir_all(base.join(format!("tftpd-sim-{:07}", pid)));
+}
+
 pub fn cleanup_process_sandbox() {
     let _ = std::env::set_current_dir("/");
     let base = if Path::new("/dev/shm").is_dir() { PathBuf::from("/dev/shm") } else { std::env::temp_dir() };
